@@ -199,6 +199,11 @@ def _literal_term(node, tree=None):
             if all(a is not None for a in args) and all(v is not None for _, v in kws):
                 args, kws = _positional([f for f, _ in _record_fields_of(cls_[0])], args, tuple(kws))
                 return ('call', ('name', node.func.id), tuple(args), tuple(kws))
+    if isinstance(node, ast.Call) and not node.keywords and node.args and all(isinstance(a, ast.Constant) and isinstance(a.value, (str, int)) for a in node.args) \
+            and ((isinstance(node.func, ast.Name) and node.func.id in ('itemgetter', 'attrgetter'))
+                 or (isinstance(node.func, ast.Attribute) and node.func.attr in ('itemgetter', 'attrgetter') and isinstance(node.func.value, ast.Name) and node.func.value.id == 'operator')):
+        # a getter built from constant keys / names: applied, it is the lookups it abbreviates
+        return ('call', ('name', node.func.id if isinstance(node.func, ast.Name) else node.func.attr), tuple(('const', a.value) for a in node.args), ())
     if isinstance(node, ast.UnaryOp) and isinstance(node.op, ast.USub) and isinstance(node.operand, ast.Constant) \
             and isinstance(node.operand.value, (int, float)):
         return ('const', -node.operand.value)
@@ -675,6 +680,8 @@ class SymExec(object):
                     return ob
             c = self.module_const(n.id)
             if c is not None:
+                if c[0] == 'call' and c[1] in (('name', 'itemgetter'), ('name', 'attrgetter')):
+                    return c            # a getter: applied, it is the lookups it abbreviates
                 if c[0] == 'call' and c[1][0] == 'name' and c[1][1] not in ('float', 'int', 'str', 'frozenset', 'set', 'tuple') and self.inline:
                     # a constant made by a helper of the module: the value the helper computes from the literals
                     cache = self.__dict__.setdefault('_helper_consts', {})
@@ -803,6 +810,12 @@ class SymExec(object):
                 got_ = _ag(f[2][0])
                 if got_ is not None:
                     return got_
+            if f[0] == 'call' and f[1] in (('name', 'itemgetter'), ('attr', ('name', 'operator'), 'itemgetter')) and f[2] and not f[3] and len(args) == 1 and not kws \
+                    and all(k_[0] == 'const' for k_ in f[2]):
+                # itemgetter(k)(x) is x[k]; itemgetter(k1, k2, ..)(x) is (x[k1], x[k2], ..)
+                if len(f[2]) == 1:
+                    return ('sub', args[0], f[2][0])
+                return ('tuple', tuple(('sub', args[0], k_) for k_ in f[2]))
             if f in (('name', 'replace'), ('attr', ('name', 'dataclasses'), 'replace')) and len(args) == 1 and kws and all(k is not None for k, _ in kws):
                 # dataclasses.replace on the two category records: a copy with the named fields exchanged --
                 # Functor: z.functor(l, r) keeps z's slash;  Atom: Atom(x.base, f)
